@@ -197,3 +197,11 @@ def rand_buffered(rng, sp, p=0.5):
     if not ms or rng.random() > p:
         return []
     return sorted(set(rng.choice(ms) for _ in range(rng.choice([1, 1, 2, 3]))))
+
+
+def safe_max(rng, kind):
+    """size limit for a run: the default (4e9) only for inputs whose declared sizes are real; mutated/random inputs can declare
+    up to 4 GB within the default limit, which the iterator would really allocate — 16 such processes at once exhaust the sandbox"""
+    if kind in ("valid", "mid", "longhdr"):
+        return rng.choice(["def", "def", "none", "100000"])
+    return rng.choice(["100000", "70000", "1000000", "6"])
